@@ -17,7 +17,7 @@ RULE = (
     "Documents from four generators: (doc) the full document grammar under a drawn valid configuration; (ids) "
     "identifier-collision documents - headings, '(name)=' targets, '{#name}' paragraphs / spans / headings, footnote "
     "definitions + references, labelled math, directive :name: options, duplicate definitions, '#name' links, all "
-    "drawing their names from a pool of 10 that includes look-alikes of docutils' automatic ids ('id1', "
+    "drawing their names from a pool of 12 (incl. all-digit ones) that includes look-alikes of docutils' automatic ids ('id1', "
     "'footnote-reference-1', 'system-message-1') and case variants; (tables) GFM tables with ragged rows, escaped "
     "pipes and inline markup, list-table / csv-table directives; (hostile) the cross-reference / footnote / attribute "
     "vocabulary of the totality check. Every case is checked twice - directly after parsing and after the full "
@@ -35,6 +35,10 @@ ASSUMPTIONS = [
     "row widths count column spans (morecols); tables with row spans (rST grid tables only) are skipped",
 ]
 FLOOR = {"quick": 500, "thorough": 10000}
+
+import re
+
+DISCARDED = re.compile(r"\{(figure|table)\}[^\n]*\n#+ ")
 
 _known = None
 
@@ -77,10 +81,17 @@ def check_case(acc, case, frontend) -> list[dict]:
         if tmp:
             shutil.rmtree(tmp, ignore_errors=True)
     for name, doc, warn, transformed in phases:
-        for code, detail in wellformed.problems(doc, transformed=transformed, warnings_text=warn, sphinx=(name == "sphinx")):
+        # Sphinx lifts a field list at the very start of a document into the metadata and removes it from the tree,
+        # together with any footnote reference written inside it
+        docinfo_removed = name == "sphinx" and text.lstrip().startswith(":")
+        for code, detail in wellformed.problems(doc, transformed=transformed, warnings_text=warn, sphinx=(name == "sphinx"),
+                                                docinfo_removed=docinfo_removed):
             if code.startswith("section-inside-"):
                 # specific signature for the recorded finding: rST section titles in an eval-rst block inside a container
                 code = "section-inside-container" + (":from-eval-rst" if "{eval-rst}" in text else "")
+            if code.startswith("dangling-refid") and DISCARDED.search(text):
+                # recorded finding: a directive parsed its body (registering ids / slugs) and then discarded the nodes
+                code = "dangling-refid:discarded-directive-content"
             if code in ("duplicate-id", "id-registry-points-elsewhere") and detail.startswith("'equation-") and name == "sphinx":
                 code = "duplicate-id:sphinx-equation-label"  # recorded finding: duplicate '$$ .. $$ (label)' in Sphinx
             vs.append(mk(f"C03:{code}", {**case, "frontend": frontend}, "well-formed tree", {"phase": name, "detail": detail},
@@ -101,15 +112,15 @@ def check_case(acc, case, frontend) -> list[dict]:
 
 # --------------------------------------------------------------------------- generators
 
-NAMES = ["a", "b", "a-1", "A", "id1", "id2", "footnote-reference-1", "system-message-1", "b c", "x.y"]
-TITLES = ["a", "A", "b", "a 1", "id1", "b c", "Title *em*"]
+NAMES = ["a", "b", "a-1", "A", "id1", "id2", "footnote-reference-1", "system-message-1", "b c", "x.y", "1", "2024"]
+TITLES = ["a", "A", "b", "a 1", "id1", "b c", "Title *em*", "2024", "1"]
 
 
 @st.composite
 def ids_case(draw):
     blocks = []
     for _ in range(draw(st.integers(2, 9))):
-        k = draw(st.integers(0, 11))
+        k = draw(st.integers(0, 14))
         nm = draw(st.sampled_from(NAMES))
         lab = nm.replace(" ", "-")
         if k == 0:
@@ -134,8 +145,20 @@ def ids_case(draw):
             blocks.append(f"```{{figure}} img.png\n:name: {nm}\n\ncaption\n```")
         elif k == 10:
             blocks.append(f"[link](#{lab}) and [](#{lab}) and <project:#{lab}>")
-        else:
+        elif k == 11:
             blocks.append(f"({nm})=\n({draw(st.sampled_from(NAMES))})=\n# " + draw(st.sampled_from(TITLES)))
+        elif k == 12:
+            blocks.append(draw(st.sampled_from([
+                "```{eval-rst}\n.. [#] auto rst footnote\n\nText [#]_ here\n```",
+                "```{eval-rst}\n.. [#" + lab + "] labelled rst footnote\n\nText [#" + lab + "]_ here\n```",
+                "```{eval-rst}\n.. [1] manual rst footnote\n\nText [1]_ here\n```",
+                "```{eval-rst}\n.. _" + lab + ":\n\nrst target para, see `" + lab + "`_\n```"])))
+        elif k == 13:
+            t = draw(st.sampled_from(TITLES))
+            wrapper = draw(st.sampled_from(["figure} img.png", "note}", "image} img.png", "code-block} python", "table} Cap", "epigraph}"]))
+            blocks.append("```{" + wrapper + "\n## " + t + "\n```\n\n[](#" + t.lower().replace(" ", "-").replace("*", "") + ")")
+        else:
+            blocks.append(f"[^{lab}]: def in quote\n\n> [^{lab}]: second def [^{lab}]\n\n{lab} [^{lab}]")
     cfg = {"enable_extensions": ["attrs_block", "attrs_inline", "dollarmath", "colon_fence"],
            "heading_anchors": draw(st.sampled_from([0, 2, 3])), "footnote_sort": draw(st.booleans())}
     return {"gen": "ids", "text": "\n\n".join(blocks) + "\n", "cfg": cfg}
